@@ -202,16 +202,22 @@ CLAIMED = {
         design="4/C07"),
     "C08": dict(
         text="SessionImpl models one or two live decoder instances with the hidden state the code carries across utterances "
-             "(stored CMN mode, live feature ring, scorer state) and a result function that reads hidden state where the code "
+             "(stored CMN mode, live feature ring, scorer state, running CMN sums, dynamically narrowed beams, and process-wide "
+             "state shared by decoders with different acoustic models) and a result function that reads hidden state where the code "
              "does; TLC checks that in the intended design hidden state never reaches a result (functional dependency of the "
              "result on configuration, grammar, dictionary, CMN state at the start, audio; no CMN argument in batch mode) and "
-             "that the pre-fix code violates it (negative control). Every edge of the model's state graph - new / free / "
+             "that the pre-fix code and four other ways of leaking violate it (negative controls run by the check). Every edge of the model's state graph - new / free / "
              "grammar switch / set_cmn / begin streaming or batch utterance / end, interleaved on two instances - is executed on "
              "the real library in three audio mappings (including an utterance shorter than one analysis window), plus a fresh "
              "decoder per tuple and 'ask again' cases; TLC files every final AND mid-utterance hypothesis, segmentation with "
              "scores, alignment and lattice under its tuple - CMN state read back from the decoder - and requires equal tuples "
-             "to have equal results across all histories, instances and repeated questions.",
-        note="Two grammars, one dictionary, audio excerpts of 0.75-1.3 s, one fixed streaming schedule (chunk invariance is "
+             "to have equal results across all histories, instances and repeated questions. Every result is filed a second "
+             "time under its instance's history since the CMN state was last replaced (so the second utterance after a reset "
+             "is compared too). Directed families: the same utterances after complete and partial set_cmn vectors on fresh and "
+             "used decoders; maxhmmpf with utterances cut off while the search is throttled (cut-point sweep); the same "
+             "streamed utterance 256 times in a row (every alignment against the 256-slot feature ring); two decoders with the "
+             "English and the French model in one process in both orders, one process per case.",
+        note="Two grammars (+ fan-out, loop and French ones), audio excerpts of 0.1-2.8 s, one fixed streaming schedule (chunk invariance is "
              "C07). Trusted: TLC, recorder. Two genuine defects found and repaired (fix: 3d7fa79 sticky CMN mode, a94a4c9 "
              "active senone list in the second pass).",
         technique="TLA+ model of cross-utterance hidden state checked by TLC (functional dependency, negative control); "
